@@ -45,7 +45,7 @@ def case_strategy():
         'cls': st.sampled_from(['Position', 'NedVelocity', 'BodyVelocity']),
         'lever': st.sampled_from(['none', 'zero', 'arm']),
         'n': st.integers(1, 6),
-        'placement': st.sampled_from(['on_grid', 'off_grid', 'clustered', 'mixed']),
+        'placement': st.sampled_from(['on_grid', 'off_grid', 'clustered', 'mixed', 'with_start']),       # with_start: a sample exactly at the first epoch
     })
     return st.fixed_dictionaries({
         'lat': st.one_of(st.sampled_from([0.0, 75.0, -75.0, 45.0, -45.0]), st.floats(-80, 80)),
@@ -156,6 +156,8 @@ class Scenario:
                 ts = times[idx] + rng.uniform(0.05, 0.95, k) * dt
             elif s['placement'] == 'clustered':
                 ts = times[idx[0]] + np.sort(rng.uniform(0.05, 0.95, k)) * dt
+            elif s['placement'] == 'with_start':
+                ts = np.r_[times[0], times[idx[1:]]]
             else:
                 ts = times[idx] + np.where(rng.rand(k) < 0.5, 0.0, rng.uniform(0.05, 0.95, k) * dt)
             if self.sample_times and rng.rand() < 0.5:
